@@ -9,6 +9,9 @@ Tie: translator translate/gen_rules.py; correspondence streams
 Search (real code only):
   `round-trip`    from_ast(parse(pretty(g))) == g on generated grammars (quoting/escape cases included)
   `render-import` exec(render_rules(tree)) of generated grammars (raw FF/VT/FS/GS/RS/NEL/LS/PS in terminals) is importable and returns the tree's rule set
+  `history`       one SyntaxParser(gram_rules(), gram_tokenizer()) over a sequence of grammar texts (rejected unbalanced ones in between) == a fresh one per text
+  `gram-check-file` gram_check -i FILE -o MODULE on printed rule sets (raw control characters in terminals, LF/CRLF files): load_source == file text,
+                  MODULE == render(parse(text)), rules read back == the rule set
   `fixed-points`  gram.lark parsed with the built-in rules yields those rules; gram_check's rendering of each shipped .lark equals
                   the checked-in rule module (py_rules.py exactly, gram_rules.py up to its docstring); compiled and original rules
                   accept the same sentences with the same trees
@@ -541,7 +544,7 @@ def search_fixed_points(ctx: Ctx) -> SearchResult:
 	texts = [t for _, _, t in sentences]
 	for _, toks, _ in sentences[:ctx.scale(40, 300)]:
 		mt, _ = gramlib.mutate_tokens(toks, rng, pw.vocabulary)
-		if c11.paren_depth(mt) <= 4:
+		if c11.paren_depth(mt) <= 4 and c11.block_depth(mt) <= 4:
 			texts.append(gramlib.render_tokens(mt, rng, 0.3))
 	dl = gramlib.Deadline(ctx.scale(120, 900))
 	for text in texts:
@@ -576,6 +579,245 @@ def search_fixed_points(ctx: Ctx) -> SearchResult:
 			return None if a == b else f'{text!r}: direct {a} vs module {b}'
 		law('gram: compiled vs built-in rules on a grammar text', 'accept-same:gram', same_g)
 	res.distinct = res.cases
+	res.histogram = dict(hist)
+	return res
+
+
+def search_history(ctx: Ctx) -> SearchResult:
+	"""ONE SyntaxParser(gram_rules(), gram_tokenizer()) — what gram_check's App keeps for its interactive loop — across a sequence of
+	grammar texts: valid printouts, printouts with an unclosed or a surplus bracket (rejected), groups that span lines, gram.lark itself.
+	Oracle: a fresh parser on the same text (the models treat tokenizer and parser as functions of the text)."""
+	from data.syntax.gram_rules import gram_rules
+	from data.syntax.gram_tokenizer import gram_tokenizer
+	from rogw.tranp.errors import Errors
+	from rogw.tranp.implements.syntax.tranp.syntax import SyntaxParser
+	rng = ctx.sub_rng('history')
+	gen = gramlib.RuleGen(rng)
+	res = SearchResult('a shared SyntaxParser(gram_rules(), gram_tokenizer()) gives on every grammar text of a sequence what a fresh one gives (rejected texts with unbalanced brackets in between; gram.lark last)')
+	hist: Counter[str] = Counter()
+
+	def fresh() -> Any:
+		return SyntaxParser(gram_rules(), gram_tokenizer())
+
+	def run(p: Any, text: str) -> tuple[str, Any]:
+		try:
+			with gramlib.budget(gramlib.CALL_BUDGET_S):
+				return 'ok', p.parse(text, 'entry').simplify()
+		except gramlib.BudgetExceeded:
+			return 'budget-exceeded', None
+		except Errors.Syntax as e:
+			return 'Errors.Syntax', str(e)
+		except Exception as e:  # noqa: BLE001
+			return exc_enum(e), None
+
+	def toks(tk: Any, text: str) -> Any:
+		try:
+			return [(t.type.name, t.string, tuple(t.source_map)) for t in gramlib.real_tokens(tk, text)]
+		except gramlib.BudgetExceeded:
+			return 'budget-exceeded'
+		except Exception as e:  # noqa: BLE001
+			return exc_enum(e)
+
+	with open(os.path.join(REPO, 'data/syntax/gram.lark'), 'rb') as f:
+		gram_lark = f.read().decode('utf-8')
+	valid: list[str] = ['entry := (line)+\nline[1] := word "\\n" | group\ngroup := "(" [word ("," word)*] ")"\nword := /[a-z]+/\n', 'x := (a\n\t| b)\ny := [a\n\tb]\n']
+	for _ in range(ctx.scale(40, 300)):
+		k, rules = real_from_ast(gen.grammar(rng.randint(1, 4), rng.randint(0, 3), bare_groups=rng.random() < 0.2))
+		if k != 'ok':
+			continue
+		try:
+			text = rules.pretty() + '\n'
+		except Exception:  # noqa: BLE001 - rules-ast compares pretty() itself
+			continue
+		if rng.random() < 0.3:
+			# a group that spans lines: a line break right after an opening bracket or an alternative bar (outside terminals as far as we can tell)
+			spots = [i for i, c in enumerate(text) if c in '([|' and i + 1 < len(text) and text[i + 1] not in '"/']
+			if spots:
+				i = rng.choice(spots)
+				text = text[:i + 1] + '\n\t' + text[i + 1:]
+		valid.append(text)
+	unbalanced = ['entry := (line\n', 'x := [a\n', 'x := a)\n', 'x := a]\n', 'x := ((a) b\n', 'x := [a [b]\n', 'x := a))\n', 'x := (a]\n']
+	for text in valid[2:12]:
+		spots = [i for i, c in enumerate(text) if c in '()[]']
+		if spots:
+			i = rng.choice(spots)
+			unbalanced.append(text[:i] + text[i + 1:] if rng.random() < 0.6 else text[:i] + text[i] + text[i:])
+	sequences: list[list[str]] = [['entry := (line\n', valid[0], gram_lark], ['x := a)\n', valid[1], gram_lark], ['x := [a\n', 'x := a]\n', valid[0]]]
+	for _ in range(ctx.scale(30, 250)):
+		seq = []
+		for _ in range(rng.randint(2, 6)):
+			seq.append(rng.choice(unbalanced) if rng.random() < 0.4 else rng.choice(valid))
+		if rng.random() < 0.4:
+			seq.append(gram_lark)
+		sequences.append(seq)
+	dl = gramlib.Deadline(ctx.scale(60, 400))
+	seen: set[str] = set()
+	for seq in sequences:
+		if dl.expired():
+			res.note = f'stopped early: wall budget {dl.seconds} s over'
+			break
+		res.cases += 1
+		seen.add('\x00'.join(seq))
+		try:
+			shared = fresh()
+			shared_tk = gram_tokenizer()
+		except Exception as e:  # noqa: BLE001
+			res.findings.append(Finding(key=f'history:setup-{exc_enum(e)}', what=f'building the grammar parser raised {exc_enum(e)}', replay={'sequence': seq[:1]}))
+			break
+		for i, text in enumerate(seq):
+			a, b = run(shared, text), run(fresh(), text)
+			ta, tb = toks(shared_tk, text), toks(gram_tokenizer(), text)
+			if a == b and ta == tb:
+				hist[f'same:{b[0]}'] += 1
+				continue
+			key = 'history:tokens-differ' if a == b else 'history:result-differs'
+			hist[key] += 1
+			res.findings.append(Finding(key=key, what=f'grammar text #{i + 1} of a sequence given to ONE parser/tokenizer instance: {a[0]} / {str(a[1])[:120]!r}, a fresh instance: {b[0]} / {str(b[1])[:120]!r}; text {text[:200]!r} after {seq[:i]!r:.300}',
+				replay={'sequence': seq[:i + 1], 'shared': [a[0], str(a[1])[:600]], 'fresh': [b[0], str(b[1])[:600]], 'shared_tokens': str(ta)[:600], 'fresh_tokens': str(tb)[:600]}))
+			break
+	res.distinct = len(seen)
+	res.histogram = dict(hist)
+	return res
+
+
+def search_gram_check_file(ctx: Ctx) -> SearchResult:
+	"""The FILE path of bin/gram_check.py (`App` with -i/-o, the tool that writes data/syntax/*_rules.py): rules → pretty() → file →
+	App.load_source / App.run() → generated module. Terminals hold raw control characters (CR, TAB, FF, VT, FS…, NEL, LS, PS), files end
+	their lines with LF or CRLF. Oracles: load_source returns the decoded bytes of the file, character for character; the generated
+	module equals the rendering of the in-memory parse of that text; for LF files the rules read back are the rule set the tree
+	describes (independent walk), and — where render_rules can express the values — executing the module returns them."""
+	from rogw.tranp.bin.gram_check import App, Args
+	from rogw.tranp.errors import Errors
+	from rogw.tranp.implements.syntax.tranp.syntax import SyntaxParser
+	rng = ctx.sub_rng('gram-check-file')
+	res = SearchResult('gram_check -i FILE -o MODULE: load_source(FILE) is the file\'s text; MODULE == render(parse(text)); rules read back == the printed rule set (raw control characters in terminals, LF and CRLF files)')
+	hist: Counter[str] = Counter()
+	extra_s = ['"\\r"', '"\r"', '"a\rb"', '"\r\n"', '"\x85"', '"a\x85b"', '" "', '" x"', '"\t"', '"a\x0bb"', '"é\r"']
+	extra_r = ['/a\rb/', '/\r/', '/x\x85/', '/ y/']
+	gen = gramlib.RuleGen(rng, strings=gramlib.STRING_TERMINALS + extra_s * 2, regexps=gramlib.REGEXP_TERMINALS + extra_r)
+	world = GramWorld()
+	seen: set[str] = set()
+	dl = gramlib.Deadline(ctx.scale(60, 400))
+	base = ctx.tmpdir()
+
+	def in_memory(text: str) -> tuple[str, Any, Any]:
+		from data.syntax.gram_tokenizer import gram_tokenizer
+		try:
+			with gramlib.budget(gramlib.CALL_BUDGET_S):
+				tree = SyntaxParser(world.rules, gram_tokenizer()).parse(text, 'entry')
+				return 'ok', tree, tree.simplify()
+		except gramlib.BudgetExceeded:
+			return 'budget-exceeded', None, None
+		except Errors.Syntax as e:
+			return 'Errors.Syntax', None, str(e)
+		except Exception as e:  # noqa: BLE001
+			return exc_enum(e), None, None
+
+	def char_class(a: str, b: str) -> str:
+		if a.replace('\r\n', '\n').replace('\r', '\n') == b:
+			return 'carriage-return-translated'
+		return 'other'
+
+	n = 0
+	for i in range(ctx.scale(90, 900)):
+		if dl.expired():
+			res.note = f'stopped early: wall budget {dl.seconds} s over'
+			break
+		if i == 0:
+			# entry := (line)+ ; line := word [cr] "\n" ; cr := "\r" ; word := /[a-z]+/  — a tokenizer-style grammar with the carriage-return terminal
+			t = ('entry', [('rule', [('symbol', 'entry'), ('__empty__', ''), ('expr_rep', [('symbol', 'line'), ('repeat', '+')])]),
+				('rule', [('symbol', 'line'), ('__empty__', ''), ('terms', [('symbol', 'word'), ('expr_opt', [('symbol', 'cr')]), ('string', '"\\n"')])]),
+				('rule', [('symbol', 'cr'), ('__empty__', ''), ('string', '"\\r"')]), ('rule', [('symbol', 'word'), ('__empty__', ''), ('regexp', '/[a-z]+/')])])
+		else:
+			t = gen.grammar(rng.randint(1, 4), rng.randint(0, 2), bare_groups=rng.random() < 0.2)
+		k, rules = real_from_ast(t)
+		if k != 'ok':
+			hist['not-a-rule-set'] += 1
+			continue
+		want = gramlib.tree_show(t)
+		try:
+			printed = rules.pretty() + '\n'
+		except Exception:  # noqa: BLE001 - rules-ast compares pretty() itself
+			continue
+		for variant in (('lf', 'crlf') if i % 2 == 0 else ('lf',)):
+			# CRLF files: every line end (also a raw LF inside a terminal) becomes CR LF; judged against the in-memory parse of that same text
+			text = printed if variant == 'lf' else printed.replace('\n', '\r\n')
+			res.cases += 1
+			seen.add(variant + want)
+			n += 1
+			stem = rng.choice(['g_rules', 'x_rules', 'py_rules'])
+			gp, op = os.path.join(base, f'g{n}.lark'), os.path.join(base, f'o{n}', f'{stem}.py')
+			os.makedirs(os.path.dirname(op), exist_ok=True)
+			with open(gp, 'wb') as f:
+				f.write(text.encode('utf-8'))
+			rec = {'tree': t, 'file_text': text, 'variant': variant}
+			try:
+				app = App(Args(['-i', gp, '-o', op]))
+				with gramlib.budget(gramlib.CALL_BUDGET_S):
+					loaded = app.load_source(gp)
+			except Exception as e:  # noqa: BLE001
+				hist[f'{variant}:load-raises'] += 1
+				res.findings.append(Finding(key=f'gram-check-file:load-source-raises-{exc_enum(e)}', what=f'App.load_source raised {exc_enum(e)} for a grammar file with the text {text[:200]!r}', replay=rec))
+				continue
+			if loaded != text:
+				cls = char_class(text, loaded)
+				hist[f'{variant}:LOAD-ALTERS:{cls}'] += 1
+				res.findings.append(Finding(key=f'gram-check-file:load-source-alters-text:{cls}', what=f'App.load_source does not return the text of the grammar file: {loaded[:200]!r} instead of {text[:200]!r}',
+					replay={**rec, 'loaded': loaded}))
+				continue
+			mk, mtree, mpayload = in_memory(text)
+			try:
+				with gramlib.budget(gramlib.CALL_BUDGET_S * 2):
+					app.run()
+				with open(op, 'rb') as f:
+					generated = f.read().decode('utf-8')
+				fk = 'ok'
+			except gramlib.BudgetExceeded:
+				fk, generated = 'budget-exceeded', ''
+			except Errors.Syntax:
+				fk, generated = 'Errors.Syntax', ''
+			except Exception as e:  # noqa: BLE001
+				fk, generated = exc_enum(e), ''
+			if fk != mk:
+				hist[f'{variant}:OUTCOME-DIFFERS'] += 1
+				res.findings.append(Finding(key='gram-check-file:outcome-differs-from-in-memory', what=f'gram_check -i FILE -o MODULE ends with {fk}, parsing the same text in memory with {mk}; text {text[:200]!r}', replay=rec))
+				continue
+			if mk != 'ok':
+				hist[f'{variant}:both-{mk}'] += 1
+				if variant == 'lf':
+					res.findings.append(Finding(key=rt_key(rules), what=f'the printout of a rule set is not accepted ({mk}); printout {text[:200]!r}', replay=rec))
+				continue
+			try:
+				expected = real_render(mtree, stem)
+			except Exception as e:  # noqa: BLE001
+				expected = f'raised {exc_enum(e)}'
+			if generated != expected:
+				hist[f'{variant}:MODULE-DIFFERS'] += 1
+				res.findings.append(Finding(key='gram-check-file:module-differs-from-in-memory', what=f'the module written for a grammar file is not the rendering of the parse of its text; text {text[:200]!r}', replay={**rec, 'generated': generated[:3000], 'expected': expected[:3000]}))
+				continue
+			if variant == 'lf':
+				k3, back = real_from_ast(mpayload)
+				got = gramlib.rules_show(back) if k3 == 'ok' else k3
+				if got != want:
+					hist['lf:RULES-DIFFER'] += 1
+					res.findings.append(Finding(key=rt_key(rules), what=f'the rules compiled from the grammar file are not the printed rule set; file text {text[:200]!r}', replay={**rec, 'expected': want, 'got': got}))
+					continue
+				vals = tree_values(mpayload)  # the values render_rules sees: escapes already turned into the raw characters by the printer
+				if all("'" not in v and '\n' not in v and '\r' not in v for v in vals):
+					try:
+						ns: dict[str, Any] = {}
+						exec(compile(generated, f'<generated {stem}.py>', 'exec'), ns)  # noqa: S102 - the module gram_check wrote
+						got = gramlib.rules_show(ns[stem]())
+					except Exception as e:  # noqa: BLE001
+						got = f'raised {type(e).__name__}: {e}'
+					if got != want:
+						cls = 'raw-line-separator-in-terminal' if any(c in v for v in vals for c in LINE_SEPARATORS) else 'other'
+						hist[f'lf:MODULE-IMPORT:{cls}'] += 1
+						res.findings.append(Finding(key=f'render-import:{cls}', what=f'the module gram_check wrote for a grammar file is not importable or defines other rules: {got[:200]}', replay={**rec, 'generated': generated[:3000], 'expected': want, 'got': got}))
+						continue
+					hist['lf:module-imports-equal'] += 1
+			hist[f'{variant}:file-equals-in-memory'] += 1
+	res.distinct = len(seen)
 	res.histogram = dict(hist)
 	return res
 
@@ -629,7 +871,8 @@ def run(ctx: Ctx) -> int:
 	with ctx.timed('correspondence'):
 		streams = [guarded('stream', 'rules-ast', stream_rules_ast, ctx), guarded('stream', 'rules-text', stream_rules_text, ctx)]
 	with ctx.timed('search'):
-		searches = [guarded('search', 'round-trip', search_round_trip, ctx), guarded('search', 'fixed-points', search_fixed_points, ctx), guarded('search', 'render-import', search_render_import, ctx)]
+		searches = [guarded('search', 'round-trip', search_round_trip, ctx), guarded('search', 'fixed-points', search_fixed_points, ctx), guarded('search', 'render-import', search_render_import, ctx),
+			guarded('search', 'history', search_history, ctx), guarded('search', 'gram-check-file', search_gram_check_file, ctx)]
 	return common.finish(ctx, proof, streams, searches, translate_ok=ok, translate_msg=msg,
 		statements=STATEMENTS,
 		partial={
@@ -655,6 +898,35 @@ def replay(ctx: Ctx, path: str) -> int:
 		rec = json.load(f)
 	print(json.dumps(rec, indent=1, ensure_ascii=False)[:3000])
 	inp = rec.get('input') or {}
+	if rec.get('kind') == 'failing-input' and 'sequence' in inp:
+		from data.syntax.gram_rules import gram_rules
+		from data.syntax.gram_tokenizer import gram_tokenizer
+		from rogw.tranp.implements.syntax.tranp.syntax import SyntaxParser
+		shared = SyntaxParser(gram_rules(), gram_tokenizer())
+		same = True
+		for text in inp['sequence']:
+			a = gramlib.real_parse_with(shared, text)
+			b = gramlib.real_parse_with(SyntaxParser(gram_rules(), gram_tokenizer()), text)
+			same = a == b
+			print(f'replay: {text[:80]!r}: shared {a[0]}, fresh {b[0]}')
+		if not same:
+			print(f'VIOLATION property={PROP} replay={path}')
+		return 0 if same else 1
+	if rec.get('kind') == 'failing-input' and 'file_text' in inp:
+		from rogw.tranp.bin.gram_check import App, Args
+		d = ctx.tmpdir()
+		gp = os.path.join(d, 'g.lark')
+		with open(gp, 'wb') as f:
+			f.write(inp['file_text'].encode('utf-8'))
+		try:
+			loaded = App(Args(['-i', gp])).load_source(gp)
+		except Exception as e:  # noqa: BLE001
+			loaded = f'raised {exc_enum(e)}'
+		same = loaded == inp['file_text']
+		print(f'replay: load_source returns {loaded[:200]!r}; the file holds {inp["file_text"][:200]!r}')
+		if not same:
+			print(f'VIOLATION property={PROP} replay={path}')
+			return 1
 	if rec.get('kind') == 'failing-input' and 'tree' in inp:
 		world = GramWorld()
 		k, rules = real_from_ast(_tuplify(inp['tree']))
